@@ -252,6 +252,29 @@ func propSpecs() map[string]*PropSpec {
 		Stubs:   []string{"sync.Once / sync.Mutex: engine models with happens-before clocks", "map iteration order: symbolic permutation"},
 		Assume:  []string{"a data race is confirmed natively by the Go race detector on a -race build of the same harness"},
 	})
+	big := func(h string, args ...int64) RunSpec { return RunSpec{Harness: h, Args: args, Budget: 10000000} }
+	add(&PropSpec{
+		ID: "C02", Title: "tabular operators take effect strictly in pipeline order",
+		Quick:    []RunSpec{big("H_C02", 1, 0), big("H_C02", 1, 2), big("H_C02", 2, 1), big("H_C02", 2, 2), big("H_C02", 3, 1)},
+		Thorough: []RunSpec{big("H_C02", 1, 0), big("H_C02", 1, 3), big("H_C02", 2, 1), big("H_C02", 2, 2), big("H_C02", 2, 3), big("H_C02", 3, 1), big("H_C02", 3, 2), big("H_C02", 4, 1)},
+		Covers:   []string{"compiled", "results-compared", "non-empty-result", "with-ctes"},
+		Bounds: map[string]string{"quick": "every well-typed pipeline of <= 2 operators from 25 templates (where/filter, project, extend named and unnamed, summarize with and without keys, sort/order with every direction/nulls form, take/limit incl. 0, top, count, as, render with and without properties) on every table T(a,b) of <= 2 rows of nullable integers in {0,1,2}; <= 3 operators on every 1-row table; the empty table for single operators",
+			"thorough": "<= 3 operators on <= 2 rows, <= 2 operators on 3 rows, 4 operators on 1 row"},
+		Outside: []string{"ClickHouse's actual executor: both sides are evaluated by reference evaluators with ordered-list semantics (every SELECT preserves its input order unless it has ORDER BY, groups in order of first appearance)", "aliases that shadow an existing column inside one SELECT (programs use fresh names)", "names of columns the program does not state (count, unnamed extend) are compared by position only", "tables wider than 2 columns, values outside {NULL,0,1,2}"},
+		Stubs:   []string{"nothing stubbed in the code under test (real lexer, parser, compiler on concrete programs drawn by selectors); cell values are symbolic"},
+		Assume:  []string{"reference evaluators harness/h/pipeeval.go (PQL semantics as stated in the property) and sqleval.go (SQL)"},
+	})
+	add(&PropSpec{
+		ID: "C03", Title: "joins combine the pipeline so far with the right-hand pipeline",
+		Quick:    []RunSpec{big("H_C03", 1, 3, 3, 4), big("H_C03", 2, 1, 1, 1), big("H_C03two", 0, 1), big("H_C03two", 1, 1), big("H_C03two", 2, 1), big("H_C03two", 3, 1)},
+		Thorough: []RunSpec{big("H_C03", 1, 5, 5, 7), big("H_C03", 2, 2, 2, 2), big("H_C03two", 0, 2), big("H_C03two", 1, 2), big("H_C03two", 2, 1), big("H_C03two", 3, 1)},
+		Covers:   []string{"compiled", "results-compared", "non-empty-result", "join-checked"},
+		Bounds: map[string]string{"quick": "one join: 4 kinds (default, inner, innerunique, leftouter) x 6 condition forms (bare key, explicit equality on the key and on other columns, two conditions, non-equi, key plus one-sided filter) x 3 left prefixes x 3 right-hand pipelines x 4 following operators on all tables A(k,a), B(k,b) of 1 row, and the plain join on all 2-row tables; two joins in sequence and nested in the right-hand side, all 16 kind combinations, 1-row tables (+ C(k,c))",
+			"thorough": "5 prefixes x 5 right pipelines x 7 following operators on 1-row tables; 2x2x2 variants on 2-row tables; two-join shapes on 2-row tables"},
+		Outside: []string{"ClickHouse's executor and join_use_nulls: unmatched left rows carry NULL in the right columns on both sides of the comparison", "quoted bare key names", "more than two joins"},
+		Stubs:   []string{"nothing stubbed in the code under test"},
+		Assume:  []string{"reference join semantics in harness/h/pipeeval.go (refJoin): inner = all matching pairs in left-major order, innerunique = after removing duplicate left rows, leftouter = plus unmatched left rows"},
+	})
 	seeds13 := func(n int64) []RunSpec {
 		var r []RunSpec
 		for i := int64(0); i < 20; i++ {
